@@ -11,7 +11,27 @@ use std::process::Command;
 
 /// a Python string as UTF-8 bytes (always valid UTF-8)
 fn py_string(r: &mut Rng, marks: &[usize], max: usize) -> (Vec<u8>, &'static str) {
-    match r.below(5) {
+    match r.below(6) {
+        5 => {
+            // nucleotide text with white space as it comes out of files: leading / trailing / embedded blanks, tabs, LF, CRLF
+            // (every such character is an ambiguous byte at its own position; nothing is stripped or joined)
+            let (mut s, _) = gen::sequence(r, marks, max);
+            s.retain(|b| *b < 0x80);
+            let ws: [&[u8]; 6] = [b" ", b"\n", b"\r\n", b"\t", b"  ", b"\n\n"];
+            if r.chance(2, 3) {
+                let w = *r.pick(&ws);
+                s.splice(0..0, w.iter().cloned());
+            }
+            if r.chance(1, 2) {
+                s.extend_from_slice(*r.pick(&ws));
+            }
+            for _ in 0..r.below(3) {
+                let p = r.below(s.len() as u64 + 1) as usize;
+                let w = *r.pick(&ws);
+                s.splice(p..p, w.iter().cloned());
+            }
+            (s, "whitespace")
+        }
         0 => {
             // arbitrary unicode mixed with nucleotides
             let n = gen::length(r, marks, max.min(120));
@@ -216,7 +236,9 @@ pub fn run_py(pid: &str, only: Option<&[&str]>, tier: &str, seed: u64, model: &M
                 }
                 4 => {
                     let k = rng.range(1, 31);
-                    format!("toacgt {} {}", k, rng.below(1u64 << (2 * k)))
+                    let top = 1u64 << (2 * k);
+                    let code = match rng.below(4) { 0 => top - 1, 1 => *rng.pick(&[0, 1, top - 2, top / 2, top / 2 - 1]), _ => rng.below(top) };
+                    format!("toacgt {} {}", k, code.min(top - 1))
                 }
                 5 | 6 => {
                     let k = if rng.chance(1, 30) { rng.range(6, 8) } else { rng.range(1, 5) };
